@@ -88,7 +88,11 @@ def build(config, repo=None, extra_entries=(), extra_src="", only=None):
     for e in good:
         if e.name not in mod.functions:
             raise Broken("wrapper %s missing from the IR" % e.name)
-    return Built(config, mod, {e.name: e for e in good}, skipped, len(text), time.time() - t0)
+    ents_d = {e.name: e for e in good}
+    ctl = ENT.Entry("c_control_overflow", ["i64", "i64"], "i64", "", "positive control", "control")
+    if ctl.name in mod.functions:
+        ents_d[ctl.name] = ctl
+    return Built(config, mod, ents_d, skipped, len(text), time.time() - t0)
 
 
 # ---------------------------------------------------------------- per wrapper analysis
@@ -152,6 +156,7 @@ def analyze_entry(built, name, boxes=None, rnd=None, refine_depth=2, want_paths=
     stats = dict(res.stats)
     stats["paths"] = len(res.paths)
     stats["cells"] = 1
+    stats["sites"] = len(an.trap_blocks) + sum(1 for b in an.fn.blocks.values() for i in b.insts if i.op == "load")
     pending = []
     seen_wit = {}
     by_line = {}
@@ -355,6 +360,7 @@ def run_all(config, repo=None, names=None, seed=0, procs=None):
     """analyse all (or the named) wrappers of a configuration; returns (built_meta, results)"""
     b = build(config, repo)
     names = names or sorted(b.entries)
+    names = [n for n in names if n in b.entries]
     procs = procs or min(16, os.cpu_count() or 1)
     ctx = mp.get_context("fork")
     _G["built"] = b
